@@ -186,3 +186,30 @@ func TestXmpReducedDates(t *testing.T) {
 		}
 	}
 }
+
+// TestConfirmXmpWhiteSpaceBetweenTokens: XML allows white space on both sides of the '=' of an attribute and
+// between the last attribute and the '>' or '/>' that ends the tag. Every one of these forms of the same
+// rdf:Description must report the same two properties, for padding that straddles the look-ahead steps too.
+func TestConfirmXmpWhiteSpaceBetweenTokens(t *testing.T) {
+	const ns = `<rdf:Description rdf:about="" xmlns:tiff="http://ns.adobe.com/tiff/1.0/" `
+	var bad []string
+	for _, pad := range []string{" ", "\n", "\t ", "\r\n  ", strings.Repeat(" ", 127), strings.Repeat(" ", 300)} {
+		for name, body := range map[string]string{
+			"before >":        ns + `tiff:Make="Canon"` + pad + `><tiff:Model>M1</tiff:Model></rdf:Description>`,
+			"before />":       ns + `tiff:Make="Canon" tiff:Model="M1"` + pad + `/>`,
+			"before =":        ns + `tiff:Make` + pad + `="Canon" tiff:Model="M1"></rdf:Description>`,
+			"after =":         ns + `tiff:Make=` + pad + `"Canon" tiff:Model="M1"></rdf:Description>`,
+			"around =":        ns + `tiff:Make` + pad + `=` + pad + `'Canon' tiff:Model='M1'` + pad + `></rdf:Description>`,
+			"between attrs":   ns + `tiff:Make="Canon"` + pad + `tiff:Model="M1"></rdf:Description>`,
+			"in a child elem": ns + `><tiff:Make` + pad + `>Canon</tiff:Make` + pad + `><tiff:Model>M1</tiff:Model></rdf:Description>`,
+		} {
+			x, err := xmp.ParseXmp(strings.NewReader(xmpPacket(body)))
+			if err != nil || x.Tiff.Make != "Canon" || x.Tiff.Model != "M1" {
+				bad = append(bad, fmt.Sprintf("%s (pad %d bytes): err=%v Make=%q Model=%q", name, len(pad), err, x.Tiff.Make, x.Tiff.Model))
+			}
+		}
+	}
+	if len(bad) > 0 {
+		t.Fatalf("white space between tokens loses properties:\n%s", strings.Join(bad, "\n"))
+	}
+}
